@@ -7,4 +7,4 @@ Extraction "Extract/m_sync.ml"
   Sync.remote_map Sync.local_map Sync.tracking_map Sync.Known_C10 Sync.writes
   Sync.FetchNotes Sync.PushNotes Sync.push_part0 Sync.push_part1 Sync.push_part2 Sync.push_part3
   Sync.fetch_part0 Sync.fetch_part1 Sync.fetch_part2 Sync.no_commit_in_copy_window Sync.guard Sync.pending_of
-  Sync.attempt Sync.retries Sync.flag_of Sync.skip GenSync.push_attempts.
+  Sync.PullNotes Sync.attempt Sync.retries Sync.flag_of Sync.skip GenSync.push_attempts.
